@@ -130,6 +130,11 @@ pub trait ExFromStr: Sized {
     fn from_str(s: &str) -> Result<Self, Self::Err>;
 }
 pub assume_specification<F: core::str::FromStr>[ str::parse::<F> ](s: &str) -> (r: Result<F, F::Err>);
+// R10 target for `s.len() == 0` on a &str: the byte length is zero exactly when there is no character (TRUSTED T3)
+#[verifier::external_body]
+pub fn str_is_empty(s: &str) -> (r: bool)
+    ensures r == (s@.len() == 0),
+{ s.len() == 0 }
 // byte lengths: only "is it zero" is used by the parsers
 pub assume_specification[ String::len ](s: &String) -> (r: usize)
     ensures (r == 0) == (s@.len() == 0);
